@@ -78,6 +78,29 @@ theorem C10_buffered_plus_room_is_capacity (cap data : UInt64) (h : data ≤ cap
   have := UInt64.le_iff_toNat_le.mp h
   omega
 
+/-- `pseudo_tcp_socket_is_closed_remotely` in the model answers what the regenerated predicate answers on the state field -/
+theorem C10_is_closed_remotely_is_code (s : Sock) :
+    isClosedRemotely s = (pseudo_tcp_state_has_received_fin (UInt32.ofNat s.state.toNat) != 0) := by
+  unfold isClosedRemotely
+  exact (C10_model_has_received_fin_is_code s.state).symm
+
+/-- `pseudo_tcp_socket_get_available_send_space` in the model, written with the regenerated kernels only: no room is
+    offered once our FIN is out, otherwise exactly the ring's room -/
+theorem C10_available_send_space_is_code (s : Sock) (hc : s.sbuf.cap < 2 ^ 64) (hd : s.sbuf.data < 2 ^ 64) :
+    (getAvailableSendSpace s).1 =
+      (if pseudo_tcp_state_has_sent_fin (UInt32.ofNat s.state.toNat) != 0 then 0
+       else (fifo_get_write_remaining (UInt64.ofNat s.sbuf.cap) (UInt64.ofNat s.sbuf.data)).toNat) := by
+  unfold getAvailableSendSpace
+  rw [C10_model_has_sent_fin_is_code, C10_model_write_remaining_is_code _ hc hd]
+  cases hasSentFin s.state <;> simp
+
+/-- a socket that reports "closed remotely" never reports it while still in a data-transfer state, and a socket whose
+    FIN is out offers no send space (the two public answers applications use to stop reading / writing) -/
+theorem C10_no_send_space_after_fin (s : Sock) (h : hasSentFin s.state = true) :
+    (getAvailableSendSpace s).1 = 0 ∧ (canSend s).1 = false := by
+  unfold canSend getAvailableSendSpace
+  simp [h]
+
 /-- … and without the invariant the room wraps to a huge value (why the invariant matters): kernel-checked witness -/
 example : (fifo_get_write_remaining 4 5).toNat = 2 ^ 64 - 1 := by decide
 
